@@ -288,11 +288,58 @@ func isSiblingWithPos(c ssa.CallInstruction, n *types.Named) bool {
 
 // rejectsNilElements summarises a helper: it compares an element of its slice parameter with nil
 // and returns a non-nil last result on that edge.
-func rejectsNilElements(f *ssa.Function) bool {
-	if f == nil || len(f.Blocks) == 0 {
+func rejectsNilElements(f *ssa.Function) bool { return rejectsNil(f, true, 0) }
+
+// rejectsNil: f refuses (returns a non-nil last result) when the reflective null predicate holds for an element of
+// one of its parameters (elem) or for a parameter itself (!elem); the test may sit in a new helper that is handed
+// the element and whose error f passes on.
+func rejectsNil(f *ssa.Function, elem bool, depth int) bool {
+	if f == nil || len(f.Blocks) == 0 || depth > 2 {
 		return false
 	}
 	found := false
+	for _, c := range ownCallsIn(f) {
+		call, isCall := c.(*ssa.Call)
+		h := staticCallee(c)
+		if !isCall || h == nil || !flattenable[h] || h == f {
+			continue
+		}
+		takes := false
+		for _, a := range call.Call.Args {
+			o := origins(throughValueOf(a))
+			if o.hasPrefix("param:") && (!elem || o["index"] || o["rangeiter"]) {
+				takes = true
+			}
+		}
+		ev := errResult(call)
+		if !takes || ev == nil || !rejectsNil(h, false, depth+1) {
+			continue
+		}
+		// the helper's error ends f with an error
+		for _, b := range f.Blocks {
+			if len(b.Instrs) == 0 {
+				continue
+			}
+			ifi, ok := b.Instrs[len(b.Instrs)-1].(*ssa.If)
+			if !ok {
+				continue
+			}
+			l := normLit(condEdge{ifi.Cond, true})
+			if l.Kind != "cmp" || (l.Op != token.NEQ && l.Op != token.EQL) || (loadSource(l.X) != ev && loadSource(l.Y) != ev) {
+				continue
+			}
+			succ := b.Succs[0]
+			if l.Op == token.EQL {
+				succ = b.Succs[1]
+			}
+			if okAll, _ := mustReachFromBlock(succ, func(in ssa.Instruction) bool {
+				ret, ok := in.(*ssa.Return)
+				return ok && returnsNonNilLast(ret)
+			}); okAll {
+				found = true
+			}
+		}
+	}
 	for _, b := range f.Blocks {
 		if len(b.Instrs) == 0 {
 			continue
@@ -308,7 +355,7 @@ func rejectsNilElements(f *ssa.Function) bool {
 			onElem := false
 			for _, a := range l.Call.Call.Args {
 				o := origins(throughValueOf(a))
-				if o.hasPrefix("param:") && (o["index"] || o["rangeiter"]) {
+				if o.hasPrefix("param:") && (!elem || o["index"] || o["rangeiter"]) {
 					onElem = true
 				}
 			}
